@@ -28,6 +28,69 @@ func oneRule(i int, sal int64, extra string) string {
 		" ev(\"r" + k + ".e\")\nend\n"
 }
 
+// rulesTextOpt is rulesText with optional statements before the fault, chosen
+// by letters: g = "if g<i> { return v<i> }", q = "if q<i> { return one / zero }",
+// h = "if h<i> { return }", t = "if t<i> { stag.StopTag = true }".
+func rulesTextOpt(n int, sal []int64, opts string) string {
+	t := ""
+	for i := 0; i < n; i++ {
+		k := strconv.Itoa(i)
+		extra := ""
+		for _, o := range opts {
+			switch o {
+			case 'g':
+				extra += " if g" + k + " {\n  return v" + k + "\n }\n"
+			case 'q':
+				extra += " if q" + k + " {\n  return one / zero\n }\n"
+			case 'h':
+				extra += " if h" + k + " {\n  return\n }\n"
+			case 't':
+				extra += " if t" + k + " {\n  stag.StopTag = true\n }\n"
+			}
+		}
+		t += oneRule(i, sal[i], extra)
+	}
+	return t
+}
+
+func addFlags(dc *context.DataContext, prefix string, f []bool) {
+	for i := range f {
+		dc.Add(prefix+strconv.Itoa(i), f[i])
+	}
+}
+
+func addVals(dc *context.DataContext, prefix string, v []int64) {
+	for i := range v {
+		dc.Add(prefix+strconv.Itoa(i), v[i])
+	}
+}
+
+func symVals(prefix string, n int) []int64 {
+	v := make([]int64, n)
+	for i := range v {
+		v[i] = vnd.Int64(prefix + strconv.Itoa(i))
+	}
+	return v
+}
+
+// buildText compiles a given text on a fresh builder over dc.
+func buildText(dc *context.DataContext, text string) *builder.RuleBuilder {
+	rb := builder.NewRuleBuilder(dc)
+	vnd.ExploreMapOrder(true)
+	err := rb.BuildRuleFromString(text)
+	vnd.ExploreMapOrder(false)
+	must(err, "build")
+	return rb
+}
+
+func fixedSal(n int) []int64 {
+	s := make([]int64, n)
+	for i := range s {
+		s[i] = int64(10 * (n - i))
+	}
+	return s
+}
+
 // newDC returns a data context with the event hook, the fault operands and
 // the fail flags injected.
 func newDC(f []bool) *context.DataContext {
@@ -155,6 +218,165 @@ func checkSorted(tr []string, n int, cand []bool, s []int64, f []bool, b bool, e
 	}
 }
 
+// build compiles n rules with symbolic saliences, exploring the iteration
+// order of the parsed rule map.
+func build(n int, s []int64, f []bool) *builder.RuleBuilder {
+	rb := builder.NewRuleBuilder(newDC(f))
+	vnd.ExploreMapOrder(true)
+	err := rb.BuildRuleFromString(rulesText(n, s))
+	vnd.ExploreMapOrder(false)
+	must(err, "build")
+	return rb
+}
+
+// checkTwoStage is the oracle of the staged models. Stage one = the first n1
+// started rules, stage two = the following ones (any deviation from the
+// barrier shows up in the order queries and in the salience assertions).
+// sorted1/sorted2 tell which stage runs sequentially in priority order; b is
+// the error policy (false = stop on error).
+func checkTwoStage(tr []string, n, n1, n2 int, sorted1, sorted2 bool, s []int64, f []bool, b bool, err error) {
+	checkTwoStageCand(tr, n, allTrue(n), n1, n2, sorted1, sorted2, s, f, b, err)
+}
+
+// checkTwoStageCand restricts the oracle to the candidate (selected) rules.
+func checkTwoStageCand(tr []string, n int, cand []bool, n1, n2 int, sorted1, sorted2 bool, s []int64, f []bool, b bool, err error) {
+	ord := startOrder(tr, n)
+	for _, i := range ord {
+		vnd.Assert(cand[i], "only candidate rules run")
+	}
+	k := len(ord)
+	for i := 0; i < n; i++ {
+		vnd.Assert(vnd.Count(sname(i)) <= 1, "no rule starts twice")
+		vnd.Assert(vnd.Count(ename(i)) <= 1, "no rule ends twice")
+	}
+	if k == 0 {
+		vnd.Assert(false, "at least one rule runs")
+		return
+	}
+	vnd.Assert(k <= n1+n2, "at most N+M rules run")
+	if k > n1+n2 {
+		return
+	}
+	// barrier and join, decided over every schedule
+	for a := 0; a < k && a < n1; a++ {
+		for c := n1; c < k; c++ {
+			if vnd.Count(ename(ord[a])) > 0 {
+				vnd.RequireOrder(ename(ord[a]), sname(ord[c]))
+			} else {
+				vnd.RequireOrder(sname(ord[a]), sname(ord[c]))
+			}
+		}
+	}
+	vnd.RequireJoined("ret")
+	vnd.StopIfViolated()
+	for _, i := range ord {
+		vnd.Assert(vnd.Iff(vnd.Count(ename(i)) == 1, !f[i]), "a rule ends iff it does not fail")
+	}
+	// window and stage membership by priority
+	for _, i := range ord {
+		for j := 0; j < n; j++ {
+			if cand[j] && indexOf(ord, j) < 0 {
+				vnd.Assert(s[i] >= s[j], "rules that run outrank rules that do not")
+			}
+		}
+	}
+	for a := 0; a < k && a < n1; a++ {
+		for c := n1; c < k; c++ {
+			vnd.Assert(s[ord[a]] >= s[ord[c]], "stage one outranks stage two")
+		}
+	}
+	anyFail := false
+	for _, i := range ord {
+		anyFail = vnd.Or(anyFail, f[i])
+	}
+	vnd.Assert(vnd.Iff(err != nil, anyFail), "error iff an executed rule failed")
+	seqStage := func(from, to int, stop bool) {
+		// rules ord[from:to] ran sequentially in priority order
+		for t := from; t+1 < to; t++ {
+			vnd.Assert(s[ord[t]] >= s[ord[t+1]], "sorted stage in non-increasing salience order")
+			if stop {
+				vnd.Assert(!f[ord[t]], "stop-on-error: the sorted stage stops at its first failure")
+			}
+		}
+	}
+	if k < n1 {
+		// stage one incomplete: only a sorted stage under stop-on-error stops early
+		vnd.Assert(sorted1, "a concurrent stage runs all its rules")
+		vnd.Assert(vnd.And(!b, f[ord[k-1]]), "stage one is cut short only by a failure under stop-on-error")
+		seqStage(0, k, true)
+		return
+	}
+	fail1 := false
+	for t := 0; t < n1; t++ {
+		fail1 = vnd.Or(fail1, f[ord[t]])
+	}
+	if sorted1 {
+		for t := 0; t+1 < n1; t++ {
+			vnd.Assert(s[ord[t]] >= s[ord[t+1]], "sorted stage in non-increasing salience order")
+			vnd.Assert(vnd.Or(b, !f[ord[t]]), "stop-on-error: the sorted stage stops at its first failure")
+		}
+	}
+	if k == n1 {
+		if n2 > 0 {
+			vnd.Assert(vnd.And(!b, fail1), "stage two is skipped only after a failure under stop-on-error")
+		}
+		return
+	}
+	vnd.Assert(vnd.Or(b, !fail1), "stage two runs only if stage one succeeded or errors are tolerated")
+	if sorted2 {
+		if k < n1+n2 {
+			vnd.Assert(vnd.And(!b, f[ord[k-1]]), "stage two is cut short only by a failure under stop-on-error")
+			seqStage(n1, k, true)
+		} else {
+			for t := n1; t+1 < k; t++ {
+				vnd.Assert(s[ord[t]] >= s[ord[t+1]], "sorted stage in non-increasing salience order")
+				vnd.Assert(vnd.Or(b, !f[ord[t]]), "stop-on-error: the sorted stage stops at its first failure")
+			}
+		}
+	} else {
+		vnd.Assert(k == n1+n2, "a concurrent stage runs all its rules")
+	}
+}
+
+func countsOf(n int) []int {
+	c := make([]int, n)
+	for i := range c {
+		c[i] = vnd.Count(sname(i))
+	}
+	return c
+}
+
+// checkResult: the result map holds exactly the rules that ran (since base)
+// and reached a return. Rule bodies test g (return v), q (failing return
+// expression), h (bare return), f (fault) in this order.
+func checkResult(res map[string]interface{}, n int, base []int, g, q, h, f []bool, v []int64) {
+	extra := len(res)
+	for i := 0; i < n; i++ {
+		ran := vnd.Count(sname(i)) - base[i]
+		x, has := res["r"+strconv.Itoa(i)]
+		if ran == 0 {
+			vnd.Assert(!has, "a rule that did not run has no entry")
+			continue
+		}
+		vnd.Assert(ran == 1, "a rule runs at most once")
+		wantHas := vnd.Or(g[i], vnd.And(!q[i], h[i]))
+		vnd.Assert(vnd.Iff(has, wantHas), "entry iff the rule reached a return")
+		if has {
+			extra--
+			if x == nil {
+				vnd.Assert(vnd.And(!g[i], h[i]), "nil only for a bare return")
+			} else {
+				y, ok := x.(int64)
+				vnd.Assert(ok, "returned value type")
+				vnd.Assert(vnd.And(g[i], y == v[i]), "returned value")
+			}
+		}
+	}
+	vnd.Assert(extra == 0, "no foreign or stale entries")
+}
+
+func allFalse(n int) []bool { return make([]bool, n) }
+
 func allTrue(n int) []bool {
 	c := make([]bool, n)
 	for i := range c {
@@ -173,6 +395,7 @@ func must(err error, what string) {
 func libFile(pkg string, extraImports ...string) string {
 	imps := []string{
 		`"strconv"`,
+		`"github.com/bilibili/gengine/builder"`,
 		`"github.com/bilibili/gengine/context"`,
 		`"github.com/bilibili/gengine/zz_verif/vnd"`,
 	}
